@@ -63,9 +63,28 @@ func newDir() string {
 	return d
 }
 
-// load builds the real storage object and a querier over it.
-func load(kind string, lsets []labels.Labels) *env {
-	e := &env{lsets: lsets, byKey: map[string]int{}}
+type loadErr struct{ err error }
+
+func must(err error) {
+	if err != nil {
+		panic(loadErr{err})
+	}
+}
+
+// load builds the real storage object and a querier over it. A failure of the storage code while
+// loading (e.g. the block writer rejecting the series) is returned, not fatal: it is an output class.
+func load(kind string, lsets []labels.Labels) (e *env, err error) {
+	defer func() {
+		if r := recover(); r != nil {
+			le, ok := r.(loadErr)
+			if !ok {
+				panic(r)
+			}
+			e.close()
+			e, err = nil, le.err
+		}
+	}()
+	e = &env{lsets: lsets, byKey: map[string]int{}}
 	for i, l := range lsets {
 		e.byKey[l.String()] = i
 	}
@@ -81,41 +100,41 @@ func load(kind string, lsets []labels.Labels) *env {
 		opts.StripeSize = 32
 		opts.ChunkWriteQueueSize = 0
 		head, err := tsdb.NewHead(nil, logger, nil, nil, opts, nil)
-		fatal(err)
+		must(err)
 		e.closer = append(e.closer, func() { head.Close() })
 		app := head.Appender(ctx)
 		for i, l := range lsets {
 			_, err := app.Append(0, l, 1000+int64(i%3), float64(i))
-			fatal(err)
+			must(err)
 		}
-		fatal(app.Commit())
+		must(app.Commit())
 		q, err := tsdb.NewBlockQuerier(tsdb.NewRangeHead(head, math.MinInt64, math.MaxInt64), math.MinInt64, math.MaxInt64)
-		fatal(err)
+		must(err)
 		e.q = q
 		e.closer = append(e.closer, func() { q.Close() })
 	case "block":
 		w, err := tsdb.NewBlockWriter(logger, dir, 1000*3600*2)
-		fatal(err)
+		must(err)
 		app := w.Appender(ctx)
 		for i, l := range lsets {
 			_, err := app.Append(0, l, 1000+int64(i%3), float64(i))
-			fatal(err)
+			must(err)
 		}
-		fatal(app.Commit())
+		must(app.Commit())
 		id, err := w.Flush(ctx)
-		fatal(err)
-		fatal(w.Close())
+		must(err)
+		must(w.Close())
 		b, err := tsdb.OpenBlock(logger, filepath.Join(dir, id.String()), nil, nil)
-		fatal(err)
+		must(err)
 		e.closer = append(e.closer, func() { b.Close() })
 		q, err := tsdb.NewBlockQuerier(b, math.MinInt64, math.MaxInt64)
-		fatal(err)
+		must(err)
 		e.q = q
 		e.closer = append(e.closer, func() { q.Close() })
 	default:
-		fatal(fmt.Errorf("unknown kind %q", kind))
+		must(fmt.Errorf("unknown kind %q", kind))
 	}
-	return e
+	return e, nil
 }
 
 func typeOf(t string) labels.MatchType {
@@ -360,13 +379,13 @@ func genMatcher(r *h.Rng, favour string) mspec {
 		nm = "zz" // a label no series has
 	}
 	switch r.Intn(10) {
-	case 0, 1, 2:
+	case 0, 1:
 		v := genLit(r)
-		if r.Chance(20) {
+		if r.Chance(30) {
 			v = ""
 		}
 		return mspec{nm, "eq", v}
-	case 3, 4:
+	case 2, 3, 4:
 		v := genLit(r)
 		if r.Chance(30) {
 			v = ""
@@ -380,7 +399,13 @@ func genMatcher(r *h.Rng, favour string) mspec {
 }
 
 func genMatchers(r *h.Rng, min int) []mspec {
-	n := min + r.Intn(4)
+	n := min + r.Intn(3)
+	if r.Chance(35) {
+		n = 1
+	}
+	if n < min {
+		n = min
+	}
 	if r.Chance(5) {
 		n += 3
 	}
@@ -466,22 +491,27 @@ func replayCase(c *h.Ctx, lines []string) {
 			for _, t := range f[2:] {
 				lsets = append(lsets, parseLset(t))
 			}
-			e = load(f[1], lsets)
+			var err error
+			e, err = load(f[1], lsets)
+			if err != nil {
+				c.Op(op, "err load")
+				continue
+			}
 			c.Op(op, fmt.Sprintf("ok %d", len(lsets)))
 		case "select":
 			if e == nil {
-				e = load("head", nil)
+				e, _ = load("head", nil)
 			}
 			doSelect(c, e, f[1] == "1", parseMspecs(f[2:]))
 		case "lvals":
 			if e == nil {
-				e = load("head", nil)
+				e, _ = load("head", nil)
 			}
 			lim, _ := strconv.Atoi(f[2])
 			doLvals(c, e, string(h.UnHex(f[1])), lim, parseMspecs(f[3:]))
 		case "lnames":
 			if e == nil {
-				e = load("head", nil)
+				e, _ = load("head", nil)
 			}
 			lim, _ := strconv.Atoi(f[1])
 			doLnames(c, e, lim, parseMspecs(f[2:]))
@@ -518,7 +548,12 @@ func main() {
 		for k, l := range lsets {
 			toks[k] = lsetTok(l)
 		}
-		e := load(kind, lsets)
+		e, err := load(kind, lsets)
+		if err != nil {
+			c.Op("load "+kind+" "+strings.Join(toks, " "), "err load")
+			c.Count("load:error")
+			continue
+		}
 		c.Op("load "+kind+" "+strings.Join(toks, " "), fmt.Sprintf("ok %d", len(lsets)))
 		c.Count("load:" + kind)
 		c.Count("load:series:" + bucket(len(lsets)))
